@@ -388,6 +388,38 @@ def model_leaf(res, sym_arr, av, keys):
     return jnp.asarray(out.astype(dt))
 
 
+def nonfinite_mask(res, sym_arr):
+    """elements of a symbolic (REAL-mode) input leaf that the model makes non-finite: FIN(x) is false in the model AND the query actually
+    mentioned FIN(x) (Interp(nonfinite_terms=True)); None when there is none"""
+    from .ops import FIN
+    arr = arr0(sym_arr)
+    mask = np.zeros(arr.shape, dtype=bool)
+    for i in np.ndindex(*arr.shape):
+        x = arr[i]
+        if isconc(x) or not z3.is_real(x):
+            continue
+        t = FIN(x)
+        ack = getattr(res, "ack", None)
+        if ack is not None:
+            key = ("FIN", (ack.walk(x).get_id(),))
+            if key not in ack.cache:
+                continue
+            v = res.model.eval(ack.cache[key][0], model_completion=True)
+        else:
+            v = res.model.eval(t, model_completion=False)
+        if z3.is_false(v):
+            mask[i] = True
+    return mask if mask.any() else None
+
+
+def with_nonfinite(res, sym_arr, val):
+    """the model's value of a float input leaf, with NaN where the model makes the element non-finite"""
+    m = nonfinite_mask(res, sym_arr)
+    if m is None or not jnp.issubdtype(jnp.asarray(val).dtype, jnp.floating):
+        return val
+    return jnp.where(jnp.asarray(m), jnp.nan, jnp.asarray(val))
+
+
 def replay_outputs(traced, syms, res, uf_apps=(), oracle=None, rtol=1e-3, atol=1e-3, names=None, compare=None):
     """Run the real function on the model's inputs (uninterpreted functions bound to the model's
     interpretation) and compare the outputs named in `oracle` ({out_name: array of terms}) with the values the
